@@ -14,19 +14,19 @@ def _streams(spec):
 
 PROPS = {
     "C05": {
-        "streams": _streams([("idl", 12000, 150000), ("idlname", 3000, 60000)]),
+        "streams": _streams([("idl", 12000, 900000), ("idlname", 3000, 200000)]),
         "rule": "bounded-exhaustive syntax trees (all types up to 3 nodes in every member position, all member-kind sequences up to length 3) x layout pool (every atom: space, tab, CR, LF, CRLF, '# text', '#text', '#', '# ', comment with CRLF, with '#', with non-UTF-8 bytes; in every gap class G0-G11; documentation blocks above members) plus random larger trees x random layouts (CRLF files, final comment without newline); non-trivial = tree with at least 3 type nodes",
         "trusted_base": IDL_TB + ["the generator's independent definition of a member's documentation (comment block above the keyword line) and of the layouts inside the grammar (harness/idlgen.go)"],
         "assumptions": ["layouts outside the classes the generator tags as known findings"],
     },
     "C06": {
-        "streams": _streams([("idlmut", 90000, 400000), ("idltot", 12000, 60000), ("idlname", 2000, 20000)]),
+        "streams": _streams([("idlmut", 90000, 1400000), ("idltot", 12000, 200000), ("idlname", 2000, 50000)]),
         "rule": "every single-token deletion / insertion / substitution / transposition of every description in the bounded-exhaustive base set, all token sequences up to length 3 (quick) / 4 (thorough) behind a valid header, random multi-token mutants of larger trees, valid descriptions under random layouts, truncations, random bytes and token soup; non-trivial = a text that is a mutation of a valid description",
         "trusted_base": IDL_TB + ["the canonical printer and `strip` (lean/Varlink/Idl/Printer.lean) used by the oracle on the real parser's tree"],
         "assumptions": [],
     },
     "C09": {
-        "streams": _streams([("idltot", 16000, 90000), ("idlmut", 90000, 250000), ("idlname", 1000, 10000)]),
+        "streams": _streams([("idltot", 16000, 400000), ("idlmut", 90000, 1100000), ("idlname", 1000, 50000)]),
         "rule": "every truncation of every small valid description and of random larger ones, inputs ending in '#', '# x', NUL, non-UTF-8, unbalanced punctuation, nesting up to 64 KiB ('[]'x32K, '(a:'x16K, closed and unclosed), wide field lists, all short token sequences, random bytes, single-token mutants; every call under recover() with a 20 s watchdog; non-trivial = a text that is a mutation/truncation of a valid description",
         "trusted_base": IDL_TB + ["Go's stack growth is not modelled: recursion depth is bounded by the 64 KiB input bound of the property"],
         "assumptions": ["inputs up to 64 KiB"],
